@@ -318,6 +318,85 @@ def rule_M8_weak(m, rep, rid='M8w'):
     rep.ob(rid, 'flush-only-resets', not bad, m.flush.where(), 'flush stores only 0 to `%s`' % m.f_written if not bad else 'flush stores %s to %s' % ([fmt(v) for _, _, v in bad], m.f_written))
 
 
+_VIEWS = ('core::str::as_bytes', 'alloc::string::String::as_str', 'alloc::string::String::as_bytes', 'alloc::vec::Vec::as_slice',
+          '<alloc::string::String as core::ops::deref::Deref>::deref', '<alloc::vec::Vec as core::ops::deref::Deref>::deref')
+_SHORTER = ('core::str::trim', 'core::str::trim_start', 'core::str::trim_end', 'core::str::trim_matches',
+            'core::str::trim_start_matches', 'core::str::trim_end_matches')
+_LEN = ('core::str::len', 'core::slice::len', 'alloc::vec::Vec::len', 'alloc::string::String::len')
+
+
+def _canon(t):
+    """normal form modulo borrows and std views; len() of a mapped/collected slice iterator is len() of the slice"""
+    t = norm(t)
+    while True:
+        if t[0] in ('ref', 'deref', 'copy', 'move', 'autoderef') and len(t) > 1 and isinstance(t[1], tuple):
+            t = t[1]
+        elif t[0] == 'call' and isinstance(t[1], str) and t[1] in _VIEWS and len(t[2]) == 1:
+            t = t[2][0]
+        else:
+            break
+    if t[0] == 'call' and isinstance(t[1], str) and t[1] in _LEN and len(t[2]) == 1:
+        x = _canon(t[2][0])
+        # collect(map(iter(v), f)): std - Map over a slice iterator yields exactly one item per element
+        if x[0] == 'call' and isinstance(x[1], str) and x[1].endswith('Iterator>::collect') and len(x[2]) == 1:
+            y = _canon(x[2][0])
+            if y[0] == 'call' and isinstance(y[1], str) and y[1].endswith('Iterator>::map'):
+                z = _canon(y[2][0])
+                if z[0] == 'call' and isinstance(z[1], str) and z[1] in ('core::slice::iter',):
+                    x = _canon(z[2][0])
+        return ('len', x)
+    return t
+
+
+def _le(a, b):
+    """a <= b by std's algebra?"""
+    if a == b:
+        return True
+    if a[0] == 'call' and isinstance(a[1], str):
+        if a[1] == 'core::num::saturating_sub' and _canon(a[2][0]) == b:
+            return True
+        if a[1].endswith(('cmp::Ord::min', 'cmp::min', 'cmp::Ord>::min')) and any(_canon(x) == b for x in a[2]):
+            return True
+    if a[0] == 'len' and b[0] == 'len':
+        x = a[1]
+        while x[0] == 'call' and isinstance(x[1], str) and x[1] in _SHORTER:
+            x = _canon(x[2][0])
+            if x == b[1]:
+                return True
+    return False
+
+
+def always(d):
+    """True / False when the boolean term d has that value in every execution by std's own algebra, else None."""
+    d = norm(d)
+    if d[0] == 'un' and d[1] == 'Not':
+        r = always(d[2])
+        return None if r is None else (not r)
+    if d[0] == 'const' and d[1] == 'bool':
+        return str(d[2]).lower() == 'true'
+    if d[0] != 'bin':
+        return None
+    op, a, b = d[1], _canon(d[2]), _canon(d[3])
+    # Ok payload of compare_exchange(cell, current, new, ..) is `current`
+    for x, y in ((a, b), (b, a)):
+        if x[0] == 'field' and x[1][0] == 'payload' and x[1][2] == 'Ok' and term_callee_is(x[1][1], 'core::sync::atomic::Atomic::compare_exchange') \
+                and _canon(x[1][1][2][1]) == y:
+            return {'Eq': True, 'Ne': False, 'Le': True, 'Ge': True, 'Lt': False, 'Gt': False}.get(op)
+    if op in ('Eq', 'Le', 'Ge') and a == b:
+        return True
+    if op in ('Ne', 'Lt', 'Gt') and a == b:
+        return False
+    if op == 'Le' and _le(a, b):
+        return True
+    if op == 'Ge' and _le(b, a):
+        return True
+    if op == 'Gt' and _le(a, b):
+        return False
+    if op == 'Lt' and _le(b, a):
+        return False
+    return None
+
+
 def discharge(ctx, m, inv_ok, cr, b, bi, kind, term, T):
     """returns (True, 'Dk: why') | (False, why) | (None, '')"""
     if kind.startswith('resource:'):
@@ -328,10 +407,19 @@ def discharge(ctx, m, inv_ok, cr, b, bi, kind, term, T):
             a = term[2][0]
             if term_callee_is(a, 'std::sync::poison::mutex::Mutex::lock'):
                 return True, 'D3: lock().unwrap() panics only on a poisoned mutex (see D3/critical-sections-cannot-poison)'
+            if term_callee_is(a, 'std::thread::builder::Builder::spawn', 'std::thread::Builder::spawn'):
+                return True, 'D5: Builder::spawn(..).unwrap()/expect() is what thread::spawn does: it fails only when the OS refuses a thread (resource exhaustion)'
             if cr is ctx.mac and term_callee_is(a, 'cadence_macros::state::get_global_default'):
                 from .c17 import _is_unwrapped_global
                 if _is_unwrapped_global(ctx.mac, strip_generics(b.path)):
                     return True, 'D6: the documented panic of the statsd_* macros when no global client is set (C17), moved into a helper of the macro crate'
+        if k.endswith(('core::panicking::panic', 'core::panicking::panic_fmt', 'core::panicking::assert_failed')):
+            # an assertion: the panic is behind `if !(cond)`; discharged when cond is a fact of std's own algebra
+            for dt, labels, _sbi in (guards_of(T, bi) or []):
+                d = norm(dt)
+                for lab in labels:
+                    if lab[0] == 'bool' and always(d) is (not lab[1]):
+                        return True, 'D7: assertion of a fact that always holds (%s): the panic is unreachable' % fmt(d)[:100]
         return None, ''
     # asserts
     msg = kind[7:]
